@@ -398,7 +398,10 @@ class RecocoIOLoop (Task):
     def on_close (worker):
       def close_worker (worker):
         # Actually close the worker (called by Select loop)
-        worker.socket.close()
+        try:
+          worker.socket.close()
+        except Exception:
+          pass # e.g. ECONNRESET from close(); the socket is gone either way
         self._workers.discard(worker)
       # schedule close_worker to be called by Select loop
       self._pending_commands.append(lambda: close_worker(worker))
